@@ -4651,8 +4651,13 @@ class NetCDFRead(IORead):
                             f"{coordref.__class__.__name__}"
                         )  # pragma: no cover
 
-                        self._reference(grid_mapping_ncvar, field_ncvar)
                         ncvar_to_key[grid_mapping_ncvar] = key
+
+                    # The grid mapping variable has been used, also
+                    # when all it provided was the datum of a
+                    # vertical coordinate reference (so that it does
+                    # not become a field construct of its own)
+                    self._reference(grid_mapping_ncvar, field_ncvar)
 
         # ------------------------------------------------------------
         # Add cell measures to the field/domain
